@@ -577,8 +577,22 @@ func check(sc *scenario, res *result) (out []finding, st map[string]int) {
 		// is open from the start and nothing is ever closed, so the call neither dials nor loses a conn; once a
 		// direct connection has been announced (2 ms before the call's end at the latest) the call must not fail
 		if c.Kind == "newstream" && !c.AllowLimited && cr.Err != "" && onlyLimitedAtStart && nothingCloses {
+			// the call's own context must have been alive for 2 ms while the direct conn existed (a call
+			// whose context is over may fail whatever exists)
+			ctxEnd := cr.EndMs
+			for _, d := range []int{c.TimeoutMs, c.DialPeerTOMs} {
+				if d > 0 && cr.StartMs+int64(d) < ctxEnd {
+					ctxEnd = cr.StartMs + int64(d)
+				}
+			}
+			if c.CancelAtMs >= 0 && cr.StartMs+int64(c.CancelAtMs) < ctxEnd {
+				ctxEnd = cr.StartMs + int64(c.CancelAtMs)
+			}
 			for _, t := range res.DirectAdmitted {
-				if t <= cr.EndMs-2 {
+				if t < cr.StartMs {
+					t = cr.StartMs
+				}
+				if t <= ctxEnd-2 {
 					out = append(out, finding{"waiter-failed-although-a-direct-conn-appeared-in-time", fmt.Sprintf("NewStream (called at %d ms) failed at %d ms with %q although a direct connection had been announced at %d ms and nothing was closed (%d direct conns open at return)",
 						cr.StartMs, cr.EndMs, cr.Err, t, cr.DirectOpen)})
 					break
